@@ -67,7 +67,7 @@ CLAIMED["C04"] = (
     "CmdJump construction/export/parse (stack pointer present iff given, also for SP = 0), CmdLoad.export (zero padding to 16, count, CRC-32/MPEG-2 "
     "over the padded data), ImageHeaderV2.export field by field (versions incl. component != product, flags, block counts, build number) are "
     "discharged for all field values. Section level (AES-CTR block counters, HMAC table) and whole-image level are bounded checks only; "
-    "the key-blob / signature / KEK clauses rest on C09 and the primitives. Added: BootSectionV2.export against the ROM model (header announces HMAC and block counts, every command block encrypted with the counter of its own file position, HMAC entries cover all command blocks, counter continues at the next position) with abstract commands.",
+    "the key-blob / signature / KEK clauses rest on C09 and the primitives. Added: BootSectionV2.export against the ROM model (header announces HMAC and block counts, every command block encrypted with the counter of its own file position, HMAC entries cover all command blocks, counter continues at the next position) with abstract commands. Added later: lemmas ERASE / MEM_ENABLE reach the ROM with range and memory and parse back.",
     "Trusted: A-enc, A-smt, A-struct (struct pack/unpack as positional notation), CRC as an uninterpreted function (C09). BootSectionV2.export/"
     "parse, BootImageV2x.export/parse and the remaining command classes are NOT under contract (bounded round trips only); known finding C04-KF1: "
     "BootImageV21.parse reads only the first boot section.",
@@ -115,7 +115,7 @@ CLAIMED["C10"] = (
     "MbootSerialProtocol.read — against a ghost device whose device-to-host stream is universally quantified (any bytes, any length, so every "
     "corrupted byte, truncation or missing response is inside the quantifier) — returns a payload only for a frame of the declared length whose "
     "CRC matches, for DATA and CMD frames alike, raises only the documented exceptions otherwise, and always acknowledges the frame. "
-    "USB-HID framing, McuBoot operations (data phases, status mirroring), SDP/SDPS and 'within bounded time' are NOT decided here. Added: McuBoot.read_memory (USB-HID chunked path for packet sizes 32/56/1016 and the single-command path, any address, lengths 0..64 KiB, loop by inductive invariant): success status implies exactly the requested device bytes, whatever is returned is a prefix of the device bytes - against an ASSUMED device model (ghost memory; _process_cmd / _read_data behave as the reference bootloader). Added (round 3): USB-HID report framing - _create_frame = id, pad, 16-bit LE length, payload; _parse_frame hands out exactly the announced payload for every 16-bit length, zero length = abort.",
+    "USB-HID framing, McuBoot operations (data phases, status mirroring), SDP/SDPS and 'within bounded time' are NOT decided here. Added: McuBoot.read_memory (USB-HID chunked path for packet sizes 32/56/1016 and the single-command path, any address, lengths 0..64 KiB, loop by inductive invariant): success status implies exactly the requested device bytes, whatever is returned is a prefix of the device bytes - against an ASSUMED device model (ghost memory; _process_cmd / _read_data behave as the reference bootloader). Added (round 3): USB-HID report framing - _create_frame = id, pad, 16-bit LE length, payload; _parse_frame hands out exactly the announced payload for every 16-bit length, zero length = abort. Added later: CmdPacket.to_bytes (tag, flags, count, parameters LE32 in order, zero padding), GenericResponse / GetPropertyResponse constructors (status, command tag, property values as sent).",
     "Trusted: CRC as an uninterpreted function (C09), assumed contracts for the wall-clock wait loop and for response decoding, frame layout "
     "verified for payload lengths 0/1/4/32 and assumed for the others at call sites, A-enc, A-smt, A-struct. Known design-time findings #28/#29 "
     "(partial data with SUCCESS status; struct.error from response constructors) are not covered by a check. Assumed contracts (device model): McuBoot._process_cmd, McuBoot._read_data - a data phase that ends with SUCCESS but delivered fewer bytes than announced is outside this model: the bounded fault-injection sweep (bounded/C10.py) shows it is mishandled - known finding C10-KF1.",
@@ -133,7 +133,7 @@ CLAIMED["C15"] = (
     "it is proved for all contents that the message handed to the signer is exactly credential || LE32(beacon) || [device UUID taken from the "
     "challenge, ECC versions] || challenge vector, and that the exported response is credential || LE32(beacon) || [device UUID] || signature over "
     "that message — so a response is bound to the credential, beacon, device UUID and challenge (injectivity: all parts have fixed or "
-    "credential-determined lengths). 'Never verifies against another challenge' then rests on the signature scheme (not claimed). Added: RotMetaRSA.export / calculate_hash - the RoT table is four 32-byte slots in key order with missing slots zero and its hash is the image tool's RKTH, for 1..4 keys. Added (round 3): lemmas joining the DC side (hash of the raw X || Y export) and the image side (RKHT._calc_key_hash) for P-256 / P-384 keys incl. leading-zero coordinates; both callee contracts are re-verified under this property.",
+    "credential-determined lengths). 'Never verifies against another challenge' then rests on the signature scheme (not claimed). Added: RotMetaRSA.export / calculate_hash - the RoT table is four 32-byte slots in key order with missing slots zero and its hash is the image tool's RKTH, for 1..4 keys. Added (round 3): lemmas joining the DC side (hash of the raw X || Y export) and the image side (RKHT._calc_key_hash) for P-256 / P-384 keys incl. leading-zero coordinates; both callee contracts are re-verified under this property. Added later: ECC debug credential _get_data_to_sign / export byte layouts (the signature follows exactly the signed bytes; every field in its place), RotMetaFlags export and parse-inverts-export.",
     "Trusted: the signature provider as an uninterpreted function (A-crypto-fun / A-crypto-sec not claimed), A-enc, A-smt, A-struct. The debug "
     "credential classes (export/parse/_get_data_to_sign, RoT meta; RoT hash equality with C03), challenge parsing, EdgeLock-enclave v2 responses "
     "and the YAML front end are NOT under contract.",
@@ -154,7 +154,7 @@ CLAIMED["C06"] = (
     "Verifier.add_record_bit_range records ERROR exactly when the value is missing or outside [0, 2^bits) — with C20's truthful check_range this "
     "is what makes 'a valid image is never reported as erroneous' hold for the SW/fuse version records (repaired defect). Container, image-array, "
     "signature-block and SRK layouts, hashing, signing, offsets and disjointness are NOT under contract: bounded build/parse/verify of the "
-    "repository's example configurations only. Added: ImageArrayEntry.get_hash_from_flags returns the algorithm the entry declares for every computable hash tag (SHA-256/384/512, SM3) of container versions 1 and 2, and create_flags packs type / core / hash / encrypted / boot flags into their fields. Added (round 3): SRKRecordBase.parameter_lengths (first = modulus / X length, second = exponent / Y length, two LE16) for every key-size code, _crypto_params_length.",
+    "repository's example configurations only. Added: ImageArrayEntry.get_hash_from_flags returns the algorithm the entry declares for every computable hash tag (SHA-256/384/512, SM3) of container versions 1 and 2, and create_flags packs type / core / hash / encrypted / boot flags into their fields. Added (round 3): SRKRecordBase.parameter_lengths (first = modulus / X length, second = exponent / Y length, two LE16) for every key-size code, _crypto_params_length. Added later: signature block update_fields (offsets of SRK assets / signature / certificate / blob 8-byte aligned, in order, never colliding; block length covers every part) with abstract parts; AHABContainer.header_length; image array entry meta data word and flag readers.",
     "Trusted: A-enc, A-smt. Everything outside the two units above is unverified here; 'corruption is reported' rests on the primitives (not claimed).",
     "DESIGN.md 7 C06")
 CLAIMED["C12"] = (
